@@ -2,9 +2,7 @@ package p_isaaca
 
 import (
 	"fmt"
-	"os"
 	"runtime"
-	"strconv"
 	"strings"
 	"sync"
 	"sync/atomic"
@@ -1459,6 +1457,8 @@ func TestC06(t *testing.T) {
 		"C exhaustive: every sequence of 3 (quick) / 4 (thorough; 5 over 2 heights x 2 rounds) Set calls on a real LastVoteproofsHandler, position read from Last().Cap(); " +
 		"E exhaustive: every prefix (3 or more voteproofs; 4 or more in thorough) of the histories of one height going through up to 3 rounds (each round ended by INIT draw | INIT majority, ACCEPT draw | INIT majority, suffrage-confirm INIT, ACCEPT draw | ACCEPT draw alone; optionally behind the ACCEPT majority of the previous height), followed by every update and every second update (quick: second update only behind an accepted first one) on a real LastVoteproofsHandler; " +
 		"D rapid: sequences of 3..30 updates over 5 heights x 4 rounds fed to both holders, candidates drawn relative to the current position. " +
+		"F exhaustive: a real Ballotbox with a known 4-node suffrage (threshold 67, one expel target) fed real signed valid ballots through Vote: from every start (no position, ACCEPT majority of the previous height, every position of the height over 2 rounds; 3 in thorough) every single step (thorough: every 2 steps) of the full alphabet (single init / conflicting init / init+expel / suffrage-confirm / accept / conflicting accept / accept+expel ballot of every round by node 0 or 1, the ballots carrying the voteproofs real ballots carry; a quorum of three such ballots; a split of four conflicting ballots = draw; Count) and every 2 steps (thorough: 3) of the reduced alphabet (single init / suffrage-confirm / accept ballot by node 0, quorums of these, splits, Count); the position LastPoint() is read after every ballot at a quiescent point; " +
+		"G rapid: histories of 5..60 such steps over 4 heights x 4 rounds (ballots at the current / next / earlier rounds, next and lower heights, all four signers, INIT ballots carrying the ACCEPT draw or the INIT draw of the previous round, SetLastPointFromVoteproof in between) through one Ballotbox. " +
 		"Every move of a judged position is compared with the relation written from the statement; for the LastVoteproofsHandler additionally the sequence of updates it accepted as new (IsNew and Set true) is judged by the same relation without reading Cap(), and Cap() must be the accepted update. " +
 		"non-trivial: the case contains an accepted backward (suffrage-confirm) move, a same-stage-point replacement, or a rejected lower-height input; " +
 		"exhaustive parts are distinct by construction, rapid cases by the sequence")
@@ -1471,14 +1471,15 @@ func TestC06(t *testing.T) {
 		"'never taken twice' is judged inside runs without an allowed backward (suffrage-confirm) move; a position taken again after such a move is counted as class retake-after-backward(flagged): the relation is memoryless, so the statement's own backward exception implies it",
 		"LastVoteproofsHandler.Set returning true for a voteproof that IsNew refused, while Last().Cap() stays put (fillMissing), is not a move of the position; Set returning true for a voteproof that IsNew accepted is an accepted update and must become Last().Cap()",
 		"ForceSetLast (sync/handover reset) is outside the statement",
+		"F/G: the same relation is applied to every move of Ballotbox.LastPoint() that the box makes itself while counting ballots; an accepted ballot (Vote true) is judged against the position it met; a voteproof handed out for a height below the position the step started from is a violation; only ballots that pass IsValid are offered (launch drops the others before the box)",
+		"F/G: the position is read after the goroutines started by Vote have finished (goroutine count back at its start value), so every step shows the moves of its own call only; this wait decides nothing (a wait that never ends is reported as a harness problem); SetCountAfter(0) makes the hold of an INIT draw with pending expels independent of the clock",
 	)
 
-
-	if os.Getenv("C06BALLAST") != "" {
-		n, _ := strconv.Atoi(os.Getenv("C06BALLAST"))
-		ballast := make([]byte, n<<20)
-		defer runtime.KeepAlive(ballast)
-	}
+	// speed only: every Ballotbox allocates a 1 MiB voteproof channel and the live heap of this test is small, so the
+	// collector would run every few boxes and the scavenger would hand the memory back to the OS in between. An untouched
+	// allocation that stays alive raises the heap goal; the freed channels are then reused while still mapped.
+	ballast := make([]byte, 64<<20)
+	defer runtime.KeepAlive(ballast)
 
 	heights := []int64{1, 2, 3}
 	rounds := []uint64{0, 1, 2}
